@@ -17,7 +17,7 @@ import (
 func init() {
 	fw.Register(&fw.Prop{
 		ID: "C18",
-		Rule: "prove: (seed, alpha) with alpha length 0..200, proof bytes compared with the RFC 9381 model, then Verify/ProofToHash/Proof.Hash/SetBytes/MarshalBinary agreement; verify: (key, alpha, proof) triples judged two-sidedly against the model: honest, every single-bit flip of honest proofs, Gamma+T for the 8 torsion points, non-canonical and undecodable Gamma, s+L / s in {L-1, L, L+1}, random 80-byte strings, lengths 0..100, wrong keys, every small-order key encoding (canonical and not), all 38 y>=p key encodings, undecodable keys, and forged proofs that would verify for small-order keys if validate_key were dropped; decode: SetBytes/UnmarshalBinary/ProofToHash succeed iff the model decodes, and re-encode to the input; unique: all accepted proofs for one (key, alpha) give one hash. " +
+		Rule: "prove: (seed, alpha) with alpha of every length 0..700 (thorough 0..2200) and around 2^10..2^13, proof bytes compared with the RFC 9381 model, then Verify/ProofToHash/Proof.Hash/SetBytes/MarshalBinary agreement; verify: (key, alpha, proof) triples judged two-sidedly against the model: honest, every single-bit flip of honest proofs, Gamma+T for the 8 torsion points, non-canonical and undecodable Gamma, s+L / s in {L-1, L, L+1}, random 80-byte strings, lengths 0..100, wrong keys, every small-order key encoding (canonical and not), all 38 y>=p key encodings, undecodable keys, and forged proofs that would verify for small-order keys if validate_key were dropped; decode: SetBytes/UnmarshalBinary/ProofToHash succeed iff the model decodes, and re-encode to the input; unique: all accepted proofs for one (key, alpha) give one hash. " +
 			"Non-trivial: distinct cases outside the purely random classes.",
 		Assumptions: []string{"SHA-512 of the Go standard library", "math/big", "the RFC 9381 model in harness/oracle/ecvrf (self-tested against the three RFC 9381 ECVRF-EDWARDS25519-SHA512-TAI examples)"},
 		SelfTest:    ecvrf.SelfTest,
@@ -319,6 +319,23 @@ func gen(g *fw.Gen) {
 	// prove
 	for n := g.ShareOf(800, 40000); n > 0; n-- {
 		g.Emit("prove", fw.Pack(g.Bytes(32), randAlpha(g)))
+	}
+	// dense sweep of alpha lengths beyond any plausible fixed-size buffer, and around powers of two
+	{
+		var lens []int
+		for l := 201; l <= g.Pick(700, 2200); l++ {
+			lens = append(lens, l)
+		}
+		for _, c := range []int{1024, 2048, 4096, 8192} {
+			for d := -2; d <= 2; d++ {
+				lens = append(lens, c+d)
+			}
+		}
+		for i, l := range lens {
+			if g.Own(i) {
+				g.Emit("prove", fw.Pack(g.Bytes(32), g.Bytes(l)))
+			}
+		}
 	}
 	// alpha values that need many try-and-increment rounds: search with the model
 	for n := g.ShareOf(48, 2000); n > 0; n-- {
